@@ -298,6 +298,11 @@ class SuperOperator(BasisManaged):
         # dimension of the transformation matrix
         dim = SS.shape[0]
         
+        # the representation in a complex basis is complex: real storage
+        # would silently drop its imaginary part
+        if numpy.iscomplexobj(SS) and not numpy.iscomplexobj(self._data):
+            self._data = self._data.astype(numpy.complex128)
+
         #
         # Dimension 4 means a single, time independent superoperator 
         #
